@@ -399,6 +399,7 @@ def _main(prop, tier, seed, a):
         % __import__("hypothesis").__version__,
         "failure_signatures": sorted(merged["failures"]),
     }
+    coverage.update(getattr(mod, "COVERAGE_EXTRA", {}))
     coverage.update(extra)
     evidence = {
         "property_id": prop,
